@@ -172,9 +172,7 @@ func exploreScenario(name string, o verifrt.Options, c *sched.Collector) verifrt
 	if st.Divergences > 0 && !fresh {
 		st = run(true)
 	}
-	if st.Divergences > 0 {
-		c.Fail("replay-divergence", fmt.Sprintf("%d executions could not replay their prefix although every execution used a fresh handler: behaviour depends on something the harness does not own", st.Divergences), E3Case{"schedule", name, nil, true})
-	}
+	// (divergences that remain with a fresh handler per execution are reported by sched.Merge as an incomplete search)
 	return st
 }
 
